@@ -38,6 +38,7 @@ func init() {
 			{Name: "cyclic-battery", Count: core.FixedCount(rel.CyclicCases(), rel.CyclicCases()), Run: rel.RunCyclic},
 		},
 		Repro: map[string]func() (bool, string){"c08.nan-compare": rel.ReproNaNRank, "c08.depth-stuck": rel.ReproDepthStuck,
-			"c08.map-behind-interface": func() (bool, string) { return rel.ReproMapBehindInterface("compare") }},
+			"c08.map-behind-interface": func() (bool, string) { return rel.ReproMapBehindInterface("compare") },
+			"c08.self-association":     rel.ReproSelfAssociation},
 	})
 }
